@@ -62,6 +62,39 @@ Proof.
   apply G2.
 Qed.
 
+Lemma firstn_app_exact {B} (l1 l2 : list B) n : length l1 = n -> firstn n (l1 ++ l2) = l1.
+Proof.
+  intros <-. rewrite <- (Nat.add_0_r (length l1)), firstn_app_2. simpl. apply app_nil_r.
+Qed.
+
+Lemma skipn_app_exact {B} (l1 l2 : list B) n : length l1 = n -> skipn n (l1 ++ l2) = l2.
+Proof.
+  intros <-. rewrite skipn_app, skipn_all, Nat.sub_diag. reflexivity.
+Qed.
+
+(* i-th block of a concatenation of equal-length blocks *)
+Lemma chunk_flat_map_const {A B} (f : B -> list A) L x0 : forall l i,
+  (forall x, In x l -> length (f x) = L) -> i < length l ->
+  chunk L i (flat_map f l) = f (nth i l x0).
+Proof.
+  induction l as [|x l IH]; intros i H Hi; simpl in *; [lia|].
+  assert (Hx : length (f x) = L) by (apply H; now left).
+  destruct i as [|i].
+  - unfold chunk. simpl. apply firstn_app_exact. exact Hx.
+  - unfold chunk. replace (S i * L) with (L + i * L) by (simpl; lia).
+    rewrite <- skipn_skipn, (skipn_app_exact _ _ _ Hx).
+    apply IH; [|lia]. intros y Hy. apply H. now right.
+Qed.
+
+Lemma flat_map_seq_nth {B C} (g : B -> list C) x0 l :
+  flat_map (fun i => g (nth i l x0)) (seq 0 (length l)) = flat_map g l.
+Proof.
+  induction l as [|x l IH]; simpl; [reflexivity|].
+  rewrite <- seq_shift, flat_map_concat_map, map_map, <- flat_map_concat_map. simpl.
+  now rewrite IH.
+Qed.
+
+
 (* ---- selector normalisation stays in range ------------------------------------------------ *)
 
 Lemma norm_index_range n z i : norm_index n z = Some i -> i < n.
